@@ -22,6 +22,7 @@ EXPLANATION = (
     'are taken in full width: no narrowing / sign-changing conversion of a size value feeds a branch in the growth call tree.  '
     'Disjointness over all interleavings as such, the segment_index_of bijection (log2 is not constexpr) and iterator validity '
     'are NOT decided.')
+EXPLANATION += ' Added after the seeded-change rounds: ' + 'D7: wait loops on segment-table entries re-read the table pointer in every iteration (no snapshot from before the loop); D8: the exception cleanup of internal_loop_construct touches an element through the unchecked subscript only where its segment entry was seen allocated, and a block zero-fill count is 1 or derived from segment_size().'
 ASSUMPTIONS = ['instantiations: concurrent_vector<int>, <string> (explicit instantiation + member templates used by the driver)']
 ND = ['disjointness/tiling of claimed ranges over all interleavings', 'segment_index_of bijection', 'iterator validity']
 
